@@ -162,7 +162,9 @@ RecvEv(e) ==
   /\ Chk({"C10"}, "recv-interface-write", e.wrote = (IF e.res = "data" THEN 1 ELSE 0) \/ (e.res \in {"err", "panic"} /\ e.wrote <= 1))
   \* C01: a peer is added only for a party whose key the node trusts and that trusts the node's key
   /\ When(e.res \in {"initialized", "initialized-reply"} /\ KnownInst(e.info.nid),
-        /\ Chk({"C01"}, "trust-mutual", InstOf(e.info.nid).key \in c.trusted /\ c.key \in InstOf(e.info.nid).trusted)
+        \* (named apart for sessions without a cipher: there nothing ties a pong to the ping it answers - a recorded finding)
+        /\ Chk({"C01"}, IF e.src \in PlainOf(e.post) THEN "trust-mutual-unsealed-session" ELSE "trust-mutual",
+               InstOf(e.info.nid).key \in c.trusted /\ c.key \in InstOf(e.info.nid).trusted)
         /\ Chk({"C05", "C12"}, "handshake-info-is-what-was-offered",
                e.info.claims = InstOf(e.info.nid).claims /\ e.info.pt = InstOf(e.info.nid).T))
   /\ When(e.res \in {"initialized", "initialized-reply"},
